@@ -96,6 +96,12 @@ def run_case(chk, case):
             if "PSMs were detected" in str(e) or "PSMs were available" in str(e):
                 chk.reject("training-set-without-targets-or-decoys")
                 return
+            if "need at least one array" in str(e):
+                # a fold without any PSM (fewer spectrum groups than folds): the model's split has an empty fold too
+                resp = common.driver_batch([req("split", case["folds"], h) for h in hashes])
+                if any("[]" in r_.replace(" ", "") or r_.strip() == "reject-index" for r_ in resp):
+                    chk.reject("empty-fold-too-few-spectrum-groups")
+                    return
             chk.spec_violation("exception:ValueError", dict(case=case, error=str(e)[:300], clause="brew raised"))
             return
         except RuntimeError as e:
@@ -122,6 +128,9 @@ def run_case(chk, case):
             chk.corr_break("split", dict(case=case, impl="folds", model="reject-index", hashes=hashes))
             return
         # ---- recover what the real run did
+        if not all(m.is_trained for m in models):
+            chk.reject("training-failed-zero-scores")     # brew returns all-zero scores then (C07's territory)
+            return
         tags = [m.estimator.tag_ for m in models]
         problems = []
         if [m.fold for m in models] != list(range(1, case["folds"] + 1)):
